@@ -132,7 +132,7 @@ def run(ctx):
             # (a) from the bit iterator
             from_bits = any(x.kind == 'call' and x.callee_name() == 'next' and 'BitIter' in ((x.extra['callee'].get('resolved') or {}).get('path', '') + x.extra['callee'].get('self_ty', '') + ' '.join(x.extra['callee'].get('gargs') or [])) for x in walk(idx))
             if from_bits:
-                ctx.add(RULE, fn, 'seg-index(%s from mask bits)' % tgt.name, 'exception', 'bucket index is a bit of a layout mask; that every mask bit is below chunks.len() is layout arithmetic (C14, assumed)', props, line)
+                ctx.add(RULE, fn, 'seg-index(%s from mask bits)' % tgt.name, 'exception', 'bucket index is a bit of a layout mask; that every mask bit is below chunks.len() rests on SIZING (the list count covers the position of the domain maximum under the mask builders own mapping) and on layout arithmetic (monotone positions, C14 / C15: assumed)', props, line)
                 continue
             def pred(lencall, fields=fields, c=c):
                 base = strip(lencall.args[0])
